@@ -548,6 +548,12 @@ func verifPackBody(coding string, chunks [][]byte) []byte {
 		w := gzip.NewWriter(&buf)
 		w.Write(all)
 		w.Close()
+	case "gzip2": // one gzip stream made of two members (RFC 1952 2.2), as a client compressing block by block sends
+		for _, part := range [][]byte{all[:len(all)/2], all[len(all)/2:]} {
+			w := gzip.NewWriter(&buf)
+			w.Write(part)
+			w.Close()
+		}
 	case "deflate":
 		w := zlib.NewWriter(&buf)
 		w.Write(all)
